@@ -1251,6 +1251,9 @@ class ktensor:
         [[24. 24.]
          [24. 24.]]
         """
+        if not 0 <= n < self.ndims:
+            assert False, f"Mode {n} is out of range for a ktensor of order {self.ndims}"
+
         U = get_mttkrp_factors(U, n, self.ndims)
 
         # Number of columns in input matrices
